@@ -77,7 +77,7 @@ def h_response(ctx, cfg):
     H = filt.freq_response(w)
     zi = _zinv(ctx, trig, w)
     N, D = _polyval(b, zi), _polyval(a, zi)
-    if ctx.mode == "concrete" and abs(D) < 1e-9:
+    if ctx.mode == "concrete" and abs(D) < 1e-9 and D != 0:
       ctx.exclude("denominator numerically ~0 at the probed frequency: float rounding decides between nan and a huge value")
     dzero = ctx.eq(D, 0)
     if _isnan(H):
@@ -168,7 +168,8 @@ def h_exponential(ctx, cfg):
   with P, Q:
     nb = cfg["nb"]; M = cfg["M"]
     b = ctx.reals("b", nb)
-    filt = ZFilter(list(b))
+    a0 = ctx.real("a0", nonzero=True)                 # a constant denominator: still a FIR filter, gain 1/a0
+    filt = ZFilter(list(b), [a0])
     if ctx.mode == "sym":
       c, s = trig.cs_of(w); e1 = SymComplex(c, s)
     else:
